@@ -21,7 +21,7 @@ func init() {
 			"hot initial stores are final states of a previous run of the same parameter set (any non-negative S<=x1, R, and unit-hydrograph stores)",
 		},
 		Workloads: []core.Workload{
-			{Name: "gr4j", Variant: "plain", N: core.Tiered(300, 20000), Run: c15Case},
+			{Name: "gr4j", Variant: "plain", N: core.Tiered(300, 150000), Run: c15Case},
 		},
 		RequireTags: func(string) []string { return []string{"x4<1", "x4>2", "x4-integer", "hot"} },
 	})
